@@ -128,6 +128,7 @@ fn shape_hash(s: &Scenario) -> u64 {
     for st in &s.steps {
         let x = match st {
             Step::Commit { batch, nonblocking } => 1 + (batch.items.len() as u64) * 16 + *nonblocking as u64 * 7,
+            Step::DeleteAll { keep } => 11 + *keep as u64 * 16,
             Step::OvBuild { parent, batch, .. } => 2 + (batch.items.len() as u64) * 16 + parent.map_or(0, |p| p as u64 + 1) * 1024,
             Step::OvCommit { id, .. } => 3 + *id as u64 * 16,
             Step::OvDrop { id } => 4 + *id as u64 * 16,
@@ -147,6 +148,7 @@ fn shape_hash(s: &Scenario) -> u64 {
 fn step_name(st: &Step) -> String {
     match st {
         Step::Commit { batch, nonblocking } => format!("commit({} items{}{})", batch.items.len(), if batch.witness { ", witness" } else { "" }, if *nonblocking { ", nonblocking" } else { "" }),
+        Step::DeleteAll { keep } => format!("delete every key but {keep}"),
         Step::OvBuild { id, parent, batch } => format!("overlay#{id} on {:?} ({} items)", parent, batch.items.len()),
         Step::OvCommit { id, nonblocking } => format!("commit overlay#{id}{}", if *nonblocking { " nonblocking" } else { "" }),
         Step::OvDrop { id } => format!("drop overlay#{id}"),
